@@ -1,1 +1,65 @@
-From Coq Require Import ZArith List.
+(* Property C14 — descriptors; declared lengths always match emitted bytes (theorems only; proofs in Proofs/DescProofs.v).
+   Model: Model/Desc.v (hand-written from descriptor.go, run against the implementation on every check);
+   calcDescriptor<X>Length: Gen/Preds.v (re-translated from descriptor.go on every run);
+   Spec: Spec/DescSpec.v (body sizes from the standards as plain integers, the TLV split as a relation on bytes). *)
+From Coq Require Import ZArith List Lia.
+Require Import Base.Bits Base.Iter Base.Wr Gen.Consts Gen.Types Gen.Preds Model.Desc Spec.DescSpec Proofs.DescProofs.
+Import ListNotations.
+Open Scope Z_scope.
+
+(* (a) writeDescriptorsWithLength: the 12-bit loop length is the number of bytes that follow it and every
+   length byte is the number of body bytes behind it — for ARBITRARY Descriptor_Length fields (the theorem does
+   not mention them).  Guard: no body exceeds 255 bytes (no uint8 wrap in calcDescriptorLength) and the loop
+   fits its 12-bit length.  items_bytes_ok: byte strings hold bytes (the invariant of Go's []byte).
+   loop_bytes ds bodies = tag_1, length_1, body_1, tag_2, ... with length_k = calc_descriptor_length d_k. *)
+Theorem C14_len : forall ds out,
+  enc_descriptors_with_length ds = Ok out -> items_bytes_ok out ->
+  Forall (fun d => desc_size d < 256) ds -> loop_size ds < 4096 ->
+  let bytes := bytes_of_items out in
+  exists hdr bodies,
+    bytes = hdr ++ loop_bytes ds bodies /\ zlen hdr = 2 /\
+    Forall2 (fun d b => zlen b = calc_descriptor_length d /\ zlen b = desc_size d) ds bodies /\
+    bitsf bytes 4 12 = zlen bytes - 2 /\
+    zlen bytes = 2 + loop_size ds.
+Proof. exact descriptors_with_length_exact. Qed.
+Print Assumptions C14_len.
+
+(* the guard is satisfiable, with struct Length fields that are wrong (99), left 0, and a list-valued body *)
+Definition ex_ds : list Descriptor :=
+  [ set_StreamIdentifier (desc_hdr 82 99) {| DescriptorStreamIdentifier_ComponentTag := 7 |};
+    set_Unknown (desc_hdr 3 0) {| DescriptorUnknown_Content := [1; 2; 3]; DescriptorUnknown_Tag := 3 |};
+    set_Content (desc_hdr 84 200) {| DescriptorContent_Items :=
+      [ {| DescriptorContentItem_ContentNibbleLevel1 := 1; DescriptorContentItem_ContentNibbleLevel2 := 2; DescriptorContentItem_UserByte := 3 |};
+        {| DescriptorContentItem_ContentNibbleLevel1 := 15; DescriptorContentItem_ContentNibbleLevel2 := 0; DescriptorContentItem_UserByte := 255 |} ] |} ].
+Example C14_len_example : exists out,
+  enc_descriptors_with_length ex_ds = Ok out /\ items_bytes_ok out /\
+  Forall (fun d => desc_size d < 256) ex_ds /\ loop_size ex_ds < 4096 /\
+  bytes_of_items out = [240; 14; 82; 1; 7; 3; 3; 1; 2; 3; 84; 4; 18; 3; 240; 255].
+Proof.
+  eexists. split; [vm_compute; reflexivity|]. split; [repeat constructor; cbv; intuition discriminate|].
+  split; [repeat constructor|]. split; reflexivity.
+Qed.
+
+(* what happens in general, including uint8 wrap: the length byte is the body size modulo 256; the body is
+   written in full unless that residue is 0, in which case no body is written at all *)
+Theorem C14_len_any : forall d its, enc_descriptor d = Ok its -> items_bytes_ok its ->
+  exists body,
+    bytes_of_items its = [Descriptor_Tag d mod 256; calc_descriptor_length d mod 256] ++ body /\
+    calc_descriptor_length d = desc_size d mod 256 /\
+    zlen body = (if desc_size d mod 256 =? 0 then 0 else desc_size d).
+Proof.
+  intros d its H Hok. destruct (enc_descriptor_bytes d its H Hok) as (body & E & Hl & _).
+  destruct (emitted_wrap d) as [Ec Ee]. exists body. rewrite <- Ee. auto.
+Qed.
+Print Assumptions C14_len_any.
+
+(* a 256-byte body announces 0 and writes nothing; a 300-byte body announces 44 and writes 300 bytes *)
+Example C14_wrap_256 :
+  res_map bytes_of_items (enc_descriptor (set_Unknown (desc_hdr 3 0) {| DescriptorUnknown_Content := repeat 170 256; DescriptorUnknown_Tag := 3 |}))
+  = Ok [3; 0].
+Proof. vm_compute. reflexivity. Qed.
+Example C14_wrap_300 :
+  res_map (fun its => (firstn 2 (bytes_of_items its), zlen (bytes_of_items its)))
+    (enc_descriptor (set_Unknown (desc_hdr 3 0) {| DescriptorUnknown_Content := repeat 170 300; DescriptorUnknown_Tag := 3 |}))
+  = Ok ([3; 44], 302).
+Proof. vm_compute. reflexivity. Qed.
